@@ -82,6 +82,11 @@ CLAIMS = {
    "Decides structural parts: every object kind of every device family is merged; no error is dropped in merge code; v4, v6 and raw are loaded and merged in that order with the right operands; an unknown top-level command in a raw file is an error (the sub-command level is a recorded known finding); the backwards search for the last permit line is clamped before it is used as slice bound (the documented boundary case, repaired by fix: 9b28a4b). Positions of prepend/append inside merged lists are NOT decided.",
    "Trusted: go/ssa, call graph, tables/err_exempt.tsv.",
    "DESIGN.md section 4 C18"),
+ "C17": ("other",
+   "inter-procedural, label-aware taint analysis on go/ssa with label-polymorphic summaries (parameter->result/sink/field), field-based heap, flow-sensitive mutable containers, URL->error model for net/http, masking regexps as sanitisers",
+   "Decides on every run that no password, API key or session token flows from its sources to any log/history/status/stdout/stderr sink on any path through the module, including failure paths where a transport error embeds the request URL; sanitisers are recognised by their pattern and replacement. 'other' rather than 'proof' because one genuine leak (API key in the error of httpPrefixGetLog) is pinned by the unedited test-suite and recorded as a known finding; any other (label, origin, sink) triple is reported.",
+   "Trusted: go/ssa, call graph; library functions propagate taint from arguments to results and do not log by themselves; *url.Error contains URL and method only. Not decided: a device echoing a secret back.",
+   "DESIGN.md section 4 C17, E4"),
 }
 
 NOT_APPLICABLE = {
